@@ -86,22 +86,44 @@ Definition tmo_in_range (v : bytes) : bool :=
 Definition verdict (ok known : bool) (k : N) : list N :=
   if ok then [] else if known then [V_KNOWN k] else [V_SPECFAIL].
 
+(** F-C20-7: the log exporters read a variable's value as it is, the trace and metric exporters
+    trim white space around it.  The uniform reading is the trimmed one; a log exporter case with
+    a padded value is this finding when the observation is what the UNtrimmed reading gives. *)
+Definition known7 (f : family) (e : env) (agrees_raw : bool) : bool :=
+  match f with FLog => negb (env_trimmed e) && agrees_raw | _ => false end.
+(** F-C20-8: gRPC, trace / metric: the deciding endpoint variable's URL has a path; it is joined
+    into the dial target, which then reaches nobody (the log exporter dials the host). *)
+Definition known8 (f : family) (pr : proto) (opts : list opt) (e : env) (who : bytes) : bool :=
+  match f, pr, user_conn pr opts, last_some opt_host opts with
+  | FLog, _, _, _ => false
+  | _, PGrpc, None, None =>
+      is_nil who &&
+      negb (match rd_url (spec_ep e) with
+            | Some _ => grpc_target_plain (spec_ep e)
+            | None => grpc_target_plain (gen_ep e)
+            end)
+  | _, _, _, _ => false
+  end.
+Definition verdict2 (ok k1 : bool) (c1 : N) (k2 : bool) (c2 : N) : list N :=
+  if ok then [] else if k1 then [V_KNOWN c1] else if k2 then [V_KNOWN c2] else [V_SPECFAIL].
+
 Definition check_exp (f : family) (pr : proto) (opts : list opt) (e : env) (o : eobs) : list N :=
   let m := exporter_config f pr opts e in
   flag (all_true (agree pr (c_insec m) (c_host m) (c_path m) (c_hdrs m) (c_gzip m) (c_tmo m) o)) V_MISMATCH ++
-  (if env_trimmed e then
-     let '(EObs who p hd gz tb) := o in
-     match agree pr (exp_insecure pr opts e) (exp_host pr opts e) (exp_path f opts e) (exp_hdrs opts e) (exp_gzip pr opts e) (exp_tmo opts e) o with
-     | [w; pa; h; g; t] =>
-         verdict (w || negb (grpc_ok pr e && schemes_ok opts e)) false 0 ++
-         verdict (pa || negb (path_inputs_ok opts e))
-                 (known3 f pr opts e p) 3 ++
-         verdict h (known5 f opts e hd) 5 ++
-         verdict g (known4 f opts e gz) 4 ++
-         verdict (t || negb (tmo_in_range (spec_tmo e) && tmo_in_range (gen_tmo e))) false 0
-     | _ => [V_SPECFAIL]
-     end
-   else []).
+  (* the uniform reading: every variable's value trimmed *)
+  let e' := norm_env FTrace e in
+  let '(EObs who p hd gz tb) := o in
+  match agree pr (exp_insecure pr opts e') (exp_host pr opts e') (exp_path f opts e') (exp_hdrs opts e') (exp_gzip pr opts e') (exp_tmo opts e') o,
+        agree pr (exp_insecure pr opts e) (exp_host pr opts e) (exp_path f opts e) (exp_hdrs opts e) (exp_gzip pr opts e) (exp_tmo opts e) o with
+  | [w; pa; h; g; t], [w0; pa0; h0; g0; t0] =>
+      verdict2 (w || negb (schemes_ok opts e'))
+               (known8 f pr opts e' who) 8 (known7 f e w0) 7 ++
+      verdict2 (pa || negb (path_inputs_ok opts e')) (known3 f pr opts e' p) 3 (known7 f e (pa0 || negb (path_inputs_ok opts e))) 7 ++
+      verdict2 h (known5 f opts e' hd) 5 (known7 f e h0) 7 ++
+      verdict2 g (known4 f opts e' gz) 4 (known7 f e g0) 7 ++
+      verdict2 (t || negb (tmo_in_range (spec_tmo e') && tmo_in_range (gen_tmo e'))) false 0 (known7 f e t0) 7
+  | _, _ => [V_SPECFAIL]
+  end.
 
 (** ** SDK components *)
 (** The deadline the (context-honouring) probe exporter was handed at its first non-empty
